@@ -42,7 +42,7 @@ Bytes artifact(const Fixtures &f, int t) {
     return Bytes();
 }
 
-struct Use { Result &r; const secp256k1_context *ctx; const Fixtures &F; int t; bool intact; std::string what; int64_t alloc_fail; };
+struct Use { Result &r; const secp256k1_context *ctx; const Fixtures &F; int t; bool intact; std::string what; int64_t alloc_fail; bool frugal; };
 
 #define U01(expr) L01(expr)
 // "must succeed on the intact record" round-trip expectation
@@ -51,57 +51,59 @@ void expect_intact(Use &u, int got, const char *api) {
     if (u.intact && !got) u.r.violate("C07", "intact_record_rejected", api, std::string(AN[u.t]) + ": the record read back intact but " + api + " returned 0");
 }
 
+// the reader may be a verify-only process: with `frugal` every call whose header does not say "not secp256k1_context_static" uses the static context
+#define FC(api) frugal_ctx(u.frugal, ctx, api)
 void consume(Use &u, const Bytes &rec) {
     const secp256k1_context *ctx = u.ctx; const Fixtures &F = u.F;
     Exact in(rec);
     switch (u.t) {
         case A_PUBKEY33: case A_PUBKEY65: {
             secp256k1_pubkey pk;
-            int ok = U01(secp256k1_ec_pubkey_parse(ctx, &pk, in.p, in.n)); expect_intact(u, ok, "secp256k1_ec_pubkey_parse");
+            int ok = U01(secp256k1_ec_pubkey_parse(FC("secp256k1_ec_pubkey_parse"), &pk, in.p, in.n)); expect_intact(u, ok, "secp256k1_ec_pubkey_parse");
             if (!ok) return;
-            Buf o(65); size_t l = 65; U01(secp256k1_ec_pubkey_serialize(ctx, o.p(), &l, &pk, SECP256K1_EC_UNCOMPRESSED));
-            secp256k1_pubkey t = pk; U01(secp256k1_ec_pubkey_tweak_add(ctx, &t, F.tweak)); t = pk; U01(secp256k1_ec_pubkey_tweak_mul(ctx, &t, F.tweak)); t = pk; U01(secp256k1_ec_pubkey_negate(ctx, &t));
-            const secp256k1_pubkey *two[2] = {&pk, &F.pk[0]}; U01(secp256k1_ec_pubkey_combine(ctx, &t, two, 2));
-            (void)L(secp256k1_ec_pubkey_cmp(ctx, &pk, &F.pk[0]));
-            U01(secp256k1_ecdsa_verify(ctx, &F.esig, F.msg, &pk));
-            Buf sh(32); U01(secp256k1_ecdh(ctx, sh.p(), &pk, F.sk[0], NULL, NULL));
-            secp256k1_xonly_pubkey x; int par; U01(secp256k1_xonly_pubkey_from_pubkey(ctx, &x, &par, &pk));
-            Buf e(64); U01(secp256k1_ellswift_encode(ctx, e.p(), &pk, F.aux));
-            const secp256k1_pubkey *ks[3] = {&F.pk[0], &pk, &F.pk[2]}; secp256k1_musig_keyagg_cache c; U01(secp256k1_musig_pubkey_agg(ctx, NULL, &c, ks, 3));
-            Buf a(162); uint8_t skc[32]; memcpy(skc, F.sk[0], 32); U01(secp256k1_ecdsa_adaptor_encrypt(ctx, a.p(), skc, &pk, F.msg, NULL, NULL));
-            U01(secp256k1_ecdsa_adaptor_verify(ctx, F.ad_sig, &pk, F.msg, &F.pk[1]));
+            Buf o(65); size_t l = 65; U01(secp256k1_ec_pubkey_serialize(FC("secp256k1_ec_pubkey_serialize"), o.p(), &l, &pk, SECP256K1_EC_UNCOMPRESSED));
+            secp256k1_pubkey t = pk; U01(secp256k1_ec_pubkey_tweak_add(FC("secp256k1_ec_pubkey_tweak_add"), &t, F.tweak)); t = pk; U01(secp256k1_ec_pubkey_tweak_mul(FC("secp256k1_ec_pubkey_tweak_mul"), &t, F.tweak)); t = pk; U01(secp256k1_ec_pubkey_negate(FC("secp256k1_ec_pubkey_negate"), &t));
+            const secp256k1_pubkey *two[2] = {&pk, &F.pk[0]}; U01(secp256k1_ec_pubkey_combine(FC("secp256k1_ec_pubkey_combine"), &t, two, 2));
+            (void)L(secp256k1_ec_pubkey_cmp(FC("secp256k1_ec_pubkey_cmp"), &pk, &F.pk[0]));
+            U01(secp256k1_ecdsa_verify(FC("secp256k1_ecdsa_verify"), &F.esig, F.msg, &pk));
+            Buf sh(32); U01(secp256k1_ecdh(FC("secp256k1_ecdh"), sh.p(), &pk, F.sk[0], NULL, NULL));
+            secp256k1_xonly_pubkey x; int par; U01(secp256k1_xonly_pubkey_from_pubkey(FC("secp256k1_xonly_pubkey_from_pubkey"), &x, &par, &pk));
+            Buf e(64); U01(secp256k1_ellswift_encode(FC("secp256k1_ellswift_encode"), e.p(), &pk, F.aux));
+            const secp256k1_pubkey *ks[3] = {&F.pk[0], &pk, &F.pk[2]}; secp256k1_musig_keyagg_cache c; U01(secp256k1_musig_pubkey_agg(FC("secp256k1_musig_pubkey_agg"), NULL, &c, ks, 3));
+            Buf a(162); uint8_t skc[32]; memcpy(skc, F.sk[0], 32); U01(secp256k1_ecdsa_adaptor_encrypt(FC("secp256k1_ecdsa_adaptor_encrypt"), a.p(), skc, &pk, F.msg, NULL, NULL));
+            U01(secp256k1_ecdsa_adaptor_verify(FC("secp256k1_ecdsa_adaptor_verify"), F.ad_sig, &pk, F.msg, &F.pk[1]));
             break;
         }
         case A_XONLY: {
             if (in.n != 32) return;
             secp256k1_xonly_pubkey x;
-            int ok = U01(secp256k1_xonly_pubkey_parse(ctx, &x, in.p)); expect_intact(u, ok, "secp256k1_xonly_pubkey_parse");
+            int ok = U01(secp256k1_xonly_pubkey_parse(FC("secp256k1_xonly_pubkey_parse"), &x, in.p)); expect_intact(u, ok, "secp256k1_xonly_pubkey_parse");
             if (!ok) return;
-            int v = U01(secp256k1_schnorrsig_verify(ctx, F.ssig, F.msg, 32, &x)); expect_intact(u, v, "secp256k1_schnorrsig_verify");
-            secp256k1_pubkey o; U01(secp256k1_xonly_pubkey_tweak_add(ctx, &o, &x, F.tweak));
-            Buf s(32); U01(secp256k1_xonly_pubkey_serialize(ctx, s.p(), &x));
-            U01(secp256k1_schnorrsig_aggverify(ctx, &x, F.ha_msgs, 1, F.ha_agg, 64));
+            int v = U01(secp256k1_schnorrsig_verify(FC("secp256k1_schnorrsig_verify"), F.ssig, F.msg, 32, &x)); expect_intact(u, v, "secp256k1_schnorrsig_verify");
+            secp256k1_pubkey o; U01(secp256k1_xonly_pubkey_tweak_add(FC("secp256k1_xonly_pubkey_tweak_add"), &o, &x, F.tweak));
+            Buf s(32); U01(secp256k1_xonly_pubkey_serialize(FC("secp256k1_xonly_pubkey_serialize"), s.p(), &x));
+            U01(secp256k1_schnorrsig_aggverify(FC("secp256k1_schnorrsig_aggverify"), &x, F.ha_msgs, 1, F.ha_agg, 64));
             break;
         }
         case A_ECDSA64: {
             if (in.n != 64) return;
             secp256k1_ecdsa_signature s, n2;
-            int ok = U01(secp256k1_ecdsa_signature_parse_compact(ctx, &s, in.p)); expect_intact(u, ok, "secp256k1_ecdsa_signature_parse_compact");
+            int ok = U01(secp256k1_ecdsa_signature_parse_compact(FC("secp256k1_ecdsa_signature_parse_compact"), &s, in.p)); expect_intact(u, ok, "secp256k1_ecdsa_signature_parse_compact");
             // a signature object left by a failed parse is usable too (it must simply never verify)
-            int v = U01(secp256k1_ecdsa_verify(ctx, &s, F.msg, &F.pk[0])); expect_intact(u, v, "secp256k1_ecdsa_verify");
+            int v = U01(secp256k1_ecdsa_verify(FC("secp256k1_ecdsa_verify"), &s, F.msg, &F.pk[0])); expect_intact(u, v, "secp256k1_ecdsa_verify");
             u.r.cmp(); if (!ok && v) u.r.violate("C07", "unparsed_object_verifies", "secp256k1_ecdsa_verify", "a signature object left by a failed parse verified");
-            U01(secp256k1_ecdsa_signature_normalize(ctx, &n2, &s));
-            Buf d(72); size_t dl = 72; U01(secp256k1_ecdsa_signature_serialize_der(ctx, d.p(), &dl, &s));
-            Buf dk(32); U01(secp256k1_ecdsa_adaptor_recover(ctx, dk.p(), &s, F.ad_sig, &F.pk[1]));
-            secp256k1_ecdsa_s2c_opening op; if (U01(secp256k1_ecdsa_s2c_opening_parse(ctx, &op, F.s2c_open33))) { U01(secp256k1_ecdsa_s2c_verify_commit(ctx, &s, F.s2c_data, &op)); U01(secp256k1_anti_exfil_host_verify(ctx, &s, F.msg, &F.pk[0], F.rho, &op)); }
+            U01(secp256k1_ecdsa_signature_normalize(FC("secp256k1_ecdsa_signature_normalize"), &n2, &s));
+            Buf d(72); size_t dl = 72; U01(secp256k1_ecdsa_signature_serialize_der(FC("secp256k1_ecdsa_signature_serialize_der"), d.p(), &dl, &s));
+            Buf dk(32); U01(secp256k1_ecdsa_adaptor_recover(FC("secp256k1_ecdsa_adaptor_recover"), dk.p(), &s, F.ad_sig, &F.pk[1]));
+            secp256k1_ecdsa_s2c_opening op; if (U01(secp256k1_ecdsa_s2c_opening_parse(FC("secp256k1_ecdsa_s2c_opening_parse"), &op, F.s2c_open33))) { U01(secp256k1_ecdsa_s2c_verify_commit(FC("secp256k1_ecdsa_s2c_verify_commit"), &s, F.s2c_data, &op)); U01(secp256k1_anti_exfil_host_verify(FC("secp256k1_anti_exfil_host_verify"), &s, F.msg, &F.pk[0], F.rho, &op)); }
             break;
         }
         case A_ECDSA_DER: {
             secp256k1_ecdsa_signature s;
-            int ok = U01(secp256k1_ecdsa_signature_parse_der(ctx, &s, in.p, in.n)); expect_intact(u, ok, "secp256k1_ecdsa_signature_parse_der");
-            int v = U01(secp256k1_ecdsa_verify(ctx, &s, F.msg, &F.pk[0])); expect_intact(u, v, "secp256k1_ecdsa_verify");
+            int ok = U01(secp256k1_ecdsa_signature_parse_der(FC("secp256k1_ecdsa_signature_parse_der"), &s, in.p, in.n)); expect_intact(u, ok, "secp256k1_ecdsa_signature_parse_der");
+            int v = U01(secp256k1_ecdsa_verify(FC("secp256k1_ecdsa_verify"), &s, F.msg, &F.pk[0])); expect_intact(u, v, "secp256k1_ecdsa_verify");
             u.r.cmp(); if (!ok && v) u.r.violate("C07", "unparsed_object_verifies", "secp256k1_ecdsa_verify", "a signature object left by a failed DER parse verified");
-            Buf c(64); U01(secp256k1_ecdsa_signature_serialize_compact(ctx, c.p(), &s));
+            Buf c(64); U01(secp256k1_ecdsa_signature_serialize_compact(FC("secp256k1_ecdsa_signature_serialize_compact"), c.p(), &s));
             break;
         }
         case A_RECSIG: {
@@ -109,15 +111,15 @@ void consume(Use &u, const Bytes &rec) {
             int recid = in.p[64];
             if (recid < 0 || recid > 3) { u.r.probe("recid_out_of_range_not_passed"); return; }   // recid is an API precondition (ARG_CHECK), the caller validates it
             secp256k1_ecdsa_recoverable_signature rs; secp256k1_pubkey pk; secp256k1_ecdsa_signature s;
-            int ok = U01(secp256k1_ecdsa_recoverable_signature_parse_compact(ctx, &rs, in.p, recid)); expect_intact(u, ok, "secp256k1_ecdsa_recoverable_signature_parse_compact");
+            int ok = U01(secp256k1_ecdsa_recoverable_signature_parse_compact(FC("secp256k1_ecdsa_recoverable_signature_parse_compact"), &rs, in.p, recid)); expect_intact(u, ok, "secp256k1_ecdsa_recoverable_signature_parse_compact");
             if (!ok) return;
-            int rc = U01(secp256k1_ecdsa_recover(ctx, &pk, &rs, F.msg)); expect_intact(u, rc, "secp256k1_ecdsa_recover");
-            U01(secp256k1_ecdsa_recoverable_signature_convert(ctx, &s, &rs));
+            int rc = U01(secp256k1_ecdsa_recover(FC("secp256k1_ecdsa_recover"), &pk, &rs, F.msg)); expect_intact(u, rc, "secp256k1_ecdsa_recover");
+            U01(secp256k1_ecdsa_recoverable_signature_convert(FC("secp256k1_ecdsa_recoverable_signature_convert"), &s, &rs));
             if (rc) {
-                Buf o(33); size_t l = 33; U01(secp256k1_ec_pubkey_serialize(ctx, o.p(), &l, &pk, SECP256K1_EC_COMPRESSED));
+                Buf o(33); size_t l = 33; U01(secp256k1_ec_pubkey_serialize(FC("secp256k1_ec_pubkey_serialize"), o.p(), &l, &pk, SECP256K1_EC_COMPRESSED));
                 // the header: a successful recovery "guarantees a correct signature" under the recovered key
-                secp256k1_ecdsa_signature ns; U01(secp256k1_ecdsa_signature_normalize(ctx, &ns, &s));
-                int v = U01(secp256k1_ecdsa_verify(ctx, &ns, F.msg, &pk));
+                secp256k1_ecdsa_signature ns; U01(secp256k1_ecdsa_signature_normalize(FC("secp256k1_ecdsa_signature_normalize"), &ns, &s));
+                int v = U01(secp256k1_ecdsa_verify(FC("secp256k1_ecdsa_verify"), &ns, F.msg, &pk));
                 u.r.cmp();
                 if (!v) u.r.violate("C07", "recovered_key_does_not_verify", "secp256k1_ecdsa_recover", "recover returned 1 for a stored recoverable signature (recid " + std::to_string(recid) + ") but the signature does not verify under the recovered key");
             }
@@ -125,140 +127,140 @@ void consume(Use &u, const Bytes &rec) {
         }
         case A_SCHNORR: {
             if (in.n != 64) return;
-            int v = U01(secp256k1_schnorrsig_verify(ctx, in.p, F.msg, 32, &F.xpk[0])); expect_intact(u, v, "secp256k1_schnorrsig_verify");
-            { const unsigned char *volatile nomsg = NULL; U01(secp256k1_schnorrsig_verify(ctx, in.p, nomsg, 0, &F.xpk[0])); }   // the empty message may be passed as (NULL, 0)
-            Buf agg(64); size_t al = 64; U01(secp256k1_schnorrsig_aggregate(ctx, agg.p(), &al, &F.xpk[0], F.msg, in.p, 1));
+            int v = U01(secp256k1_schnorrsig_verify(FC("secp256k1_schnorrsig_verify"), in.p, F.msg, 32, &F.xpk[0])); expect_intact(u, v, "secp256k1_schnorrsig_verify");
+            { const unsigned char *volatile nomsg = NULL; U01(secp256k1_schnorrsig_verify(FC("secp256k1_schnorrsig_verify"), in.p, nomsg, 0, &F.xpk[0])); }   // the empty message may be passed as (NULL, 0)
+            Buf agg(64); size_t al = 64; U01(secp256k1_schnorrsig_aggregate(FC("secp256k1_schnorrsig_aggregate"), agg.p(), &al, &F.xpk[0], F.msg, in.p, 1));
             break;
         }
         case A_PUBNONCE: {
             if (in.n != 66) return;
             secp256k1_musig_pubnonce pn, other;
-            int ok = U01(secp256k1_musig_pubnonce_parse(ctx, &pn, in.p)); expect_intact(u, ok, "secp256k1_musig_pubnonce_parse");
+            int ok = U01(secp256k1_musig_pubnonce_parse(FC("secp256k1_musig_pubnonce_parse"), &pn, in.p)); expect_intact(u, ok, "secp256k1_musig_pubnonce_parse");
             if (!ok) return;
-            Buf o(66); U01(secp256k1_musig_pubnonce_serialize(ctx, o.p(), &pn));
-            if (!U01(secp256k1_musig_pubnonce_parse(ctx, &other, F.mu_pubnonce[0]))) return;
-            const secp256k1_musig_pubnonce *pp[2] = {&other, &pn}; secp256k1_musig_aggnonce an; U01(secp256k1_musig_nonce_agg(ctx, &an, pp, 2));
-            Buf a(66); U01(secp256k1_musig_aggnonce_serialize(ctx, a.p(), &an));
+            Buf o(66); U01(secp256k1_musig_pubnonce_serialize(FC("secp256k1_musig_pubnonce_serialize"), o.p(), &pn));
+            if (!U01(secp256k1_musig_pubnonce_parse(FC("secp256k1_musig_pubnonce_parse"), &other, F.mu_pubnonce[0]))) return;
+            const secp256k1_musig_pubnonce *pp[2] = {&other, &pn}; secp256k1_musig_aggnonce an; U01(secp256k1_musig_nonce_agg(FC("secp256k1_musig_nonce_agg"), &an, pp, 2));
+            Buf a(66); U01(secp256k1_musig_aggnonce_serialize(FC("secp256k1_musig_aggnonce_serialize"), a.p(), &an));
             break;
         }
         case A_AGGNONCE: case A_PSIG: {
             // verifier side of the fixture session with this one record read back from disk
             const secp256k1_pubkey *pks[3] = {&F.pk[0], &F.pk[1], &F.pk[2]};
             secp256k1_musig_keyagg_cache cache;
-            if (!U01(secp256k1_musig_pubkey_agg(ctx, NULL, &cache, pks, 3))) return;
-            U01(secp256k1_musig_pubkey_ec_tweak_add(ctx, NULL, &cache, F.mu_tweak_plain)); U01(secp256k1_musig_pubkey_xonly_tweak_add(ctx, NULL, &cache, F.mu_tweak_x));
+            if (!U01(secp256k1_musig_pubkey_agg(FC("secp256k1_musig_pubkey_agg"), NULL, &cache, pks, 3))) return;
+            U01(secp256k1_musig_pubkey_ec_tweak_add(FC("secp256k1_musig_pubkey_ec_tweak_add"), NULL, &cache, F.mu_tweak_plain)); U01(secp256k1_musig_pubkey_xonly_tweak_add(FC("secp256k1_musig_pubkey_xonly_tweak_add"), NULL, &cache, F.mu_tweak_x));
             secp256k1_musig_aggnonce an; secp256k1_musig_session sess;
             const uint8_t *anb = u.t == A_AGGNONCE ? in.p : F.mu_aggnonce;
             if (u.t == A_AGGNONCE && in.n != 66) return;
             if (u.t == A_PSIG && in.n != 32) return;
-            int ok = U01(secp256k1_musig_aggnonce_parse(ctx, &an, anb)); if (u.t == A_AGGNONCE) expect_intact(u, ok, "secp256k1_musig_aggnonce_parse");
+            int ok = U01(secp256k1_musig_aggnonce_parse(FC("secp256k1_musig_aggnonce_parse"), &an, anb)); if (u.t == A_AGGNONCE) expect_intact(u, ok, "secp256k1_musig_aggnonce_parse");
             if (!ok) return;
-            if (!U01(secp256k1_musig_nonce_process(ctx, &sess, &an, F.msg, &cache, NULL))) return;
+            if (!U01(secp256k1_musig_nonce_process(FC("secp256k1_musig_nonce_process"), &sess, &an, F.msg, &cache, NULL))) return;
             secp256k1_musig_partial_sig ps; secp256k1_musig_pubnonce pn;
-            int pok = U01(secp256k1_musig_partial_sig_parse(ctx, &ps, u.t == A_PSIG ? in.p : F.mu_psig[1])); if (u.t == A_PSIG) expect_intact(u, pok, "secp256k1_musig_partial_sig_parse");
-            if (!pok || !U01(secp256k1_musig_pubnonce_parse(ctx, &pn, F.mu_pubnonce[1]))) return;
-            int v = U01(secp256k1_musig_partial_sig_verify(ctx, &ps, &pn, &F.pk[1], &cache, &sess)); expect_intact(u, v, "secp256k1_musig_partial_sig_verify");
-            const secp256k1_musig_partial_sig *pp[1] = {&ps}; Buf s64(64); U01(secp256k1_musig_partial_sig_agg(ctx, s64.p(), &sess, pp, 1));
-            int par; U01(secp256k1_musig_nonce_parity(ctx, &par, &sess));
+            int pok = U01(secp256k1_musig_partial_sig_parse(FC("secp256k1_musig_partial_sig_parse"), &ps, u.t == A_PSIG ? in.p : F.mu_psig[1])); if (u.t == A_PSIG) expect_intact(u, pok, "secp256k1_musig_partial_sig_parse");
+            if (!pok || !U01(secp256k1_musig_pubnonce_parse(FC("secp256k1_musig_pubnonce_parse"), &pn, F.mu_pubnonce[1]))) return;
+            int v = U01(secp256k1_musig_partial_sig_verify(FC("secp256k1_musig_partial_sig_verify"), &ps, &pn, &F.pk[1], &cache, &sess)); expect_intact(u, v, "secp256k1_musig_partial_sig_verify");
+            const secp256k1_musig_partial_sig *pp[1] = {&ps}; Buf s64(64); U01(secp256k1_musig_partial_sig_agg(FC("secp256k1_musig_partial_sig_agg"), s64.p(), &sess, pp, 1));
+            int par; U01(secp256k1_musig_nonce_parity(FC("secp256k1_musig_nonce_parity"), &par, &sess));
             break;
         }
         case A_ADAPTOR: {
             if (in.n != 162) return;
-            int v = U01(secp256k1_ecdsa_adaptor_verify(ctx, in.p, &F.pk[0], F.msg, &F.pk[1])); expect_intact(u, v, "secp256k1_ecdsa_adaptor_verify");
-            secp256k1_ecdsa_signature s; int d = U01(secp256k1_ecdsa_adaptor_decrypt(ctx, &s, F.sk[1], in.p)); expect_intact(u, d, "secp256k1_ecdsa_adaptor_decrypt");
-            Buf dk(32); U01(secp256k1_ecdsa_adaptor_recover(ctx, dk.p(), &s, in.p, &F.pk[1]));
-            secp256k1_ecdsa_signature fs; if (U01(secp256k1_ecdsa_signature_parse_compact(ctx, &fs, F.ad_dec64))) { int rc = U01(secp256k1_ecdsa_adaptor_recover(ctx, dk.p(), &fs, in.p, &F.pk[1])); expect_intact(u, rc, "secp256k1_ecdsa_adaptor_recover"); }
+            int v = U01(secp256k1_ecdsa_adaptor_verify(FC("secp256k1_ecdsa_adaptor_verify"), in.p, &F.pk[0], F.msg, &F.pk[1])); expect_intact(u, v, "secp256k1_ecdsa_adaptor_verify");
+            secp256k1_ecdsa_signature s; int d = U01(secp256k1_ecdsa_adaptor_decrypt(FC("secp256k1_ecdsa_adaptor_decrypt"), &s, F.sk[1], in.p)); expect_intact(u, d, "secp256k1_ecdsa_adaptor_decrypt");
+            Buf dk(32); U01(secp256k1_ecdsa_adaptor_recover(FC("secp256k1_ecdsa_adaptor_recover"), dk.p(), &s, in.p, &F.pk[1]));
+            secp256k1_ecdsa_signature fs; if (U01(secp256k1_ecdsa_signature_parse_compact(FC("secp256k1_ecdsa_signature_parse_compact"), &fs, F.ad_dec64))) { int rc = U01(secp256k1_ecdsa_adaptor_recover(FC("secp256k1_ecdsa_adaptor_recover"), dk.p(), &fs, in.p, &F.pk[1])); expect_intact(u, rc, "secp256k1_ecdsa_adaptor_recover"); }
             break;
         }
         case A_OPENING: {
             if (in.n != 33) return;
             secp256k1_ecdsa_s2c_opening op; secp256k1_ecdsa_signature s;
-            int ok = U01(secp256k1_ecdsa_s2c_opening_parse(ctx, &op, in.p)); expect_intact(u, ok, "secp256k1_ecdsa_s2c_opening_parse");
-            if (!ok || !U01(secp256k1_ecdsa_signature_parse_compact(ctx, &s, F.s2c_sig64))) return;
-            int v = U01(secp256k1_ecdsa_s2c_verify_commit(ctx, &s, F.s2c_data, &op)); expect_intact(u, v, "secp256k1_ecdsa_s2c_verify_commit");
-            Buf o(33); U01(secp256k1_ecdsa_s2c_opening_serialize(ctx, o.p(), &op));
+            int ok = U01(secp256k1_ecdsa_s2c_opening_parse(FC("secp256k1_ecdsa_s2c_opening_parse"), &op, in.p)); expect_intact(u, ok, "secp256k1_ecdsa_s2c_opening_parse");
+            if (!ok || !U01(secp256k1_ecdsa_signature_parse_compact(FC("secp256k1_ecdsa_signature_parse_compact"), &s, F.s2c_sig64))) return;
+            int v = U01(secp256k1_ecdsa_s2c_verify_commit(FC("secp256k1_ecdsa_s2c_verify_commit"), &s, F.s2c_data, &op)); expect_intact(u, v, "secp256k1_ecdsa_s2c_verify_commit");
+            Buf o(33); U01(secp256k1_ecdsa_s2c_opening_serialize(FC("secp256k1_ecdsa_s2c_opening_serialize"), o.p(), &op));
             break;
         }
         case A_ELLSWIFT: {
             if (in.n != 64) return;
-            secp256k1_pubkey pk; int ok = U01(secp256k1_ellswift_decode(ctx, &pk, in.p)); expect_intact(u, ok, "secp256k1_ellswift_decode");
+            secp256k1_pubkey pk; int ok = U01(secp256k1_ellswift_decode(FC("secp256k1_ellswift_decode"), &pk, in.p)); expect_intact(u, ok, "secp256k1_ellswift_decode");
             u.r.cmp(); if (!ok) u.r.violate("C07", "decode_failed", "secp256k1_ellswift_decode", "every 64-byte string must decode");
-            Buf o(32); U01(secp256k1_ellswift_xdh(ctx, o.p(), in.p, F.ell[1], F.sk[1], 1, secp256k1_ellswift_xdh_hash_function_bip324, NULL));
-            Buf s(33); size_t l = 33; U01(secp256k1_ec_pubkey_serialize(ctx, s.p(), &l, &pk, SECP256K1_EC_COMPRESSED));
+            Buf o(32); U01(secp256k1_ellswift_xdh(FC("secp256k1_ellswift_xdh"), o.p(), in.p, F.ell[1], F.sk[1], 1, secp256k1_ellswift_xdh_hash_function_bip324, NULL));
+            Buf s(33); size_t l = 33; U01(secp256k1_ec_pubkey_serialize(FC("secp256k1_ec_pubkey_serialize"), s.p(), &l, &pk, SECP256K1_EC_COMPRESSED));
             break;
         }
         case A_HALFAGG: {
             // the verifier derives n from the length it was given, as the API requires (aggsig_len = 32*(n+1))
             size_t n = in.n / 32 ? in.n / 32 - 1 : 0;
             if (n > HA_N) n = HA_N;
-            int v = in.n ? U01(secp256k1_schnorrsig_aggverify(ctx, F.ha_pks, F.ha_msgs, n, in.p, in.n)) : 0; expect_intact(u, v, "secp256k1_schnorrsig_aggverify");
+            int v = in.n ? U01(secp256k1_schnorrsig_aggverify(FC("secp256k1_schnorrsig_aggverify"), F.ha_pks, F.ha_msgs, n, in.p, in.n)) : 0; expect_intact(u, v, "secp256k1_schnorrsig_aggverify");
             // and with the expected n, whatever the length
-            if (in.n) U01(secp256k1_schnorrsig_aggverify(ctx, F.ha_pks, F.ha_msgs, HA_N, in.p, in.n));
+            if (in.n) U01(secp256k1_schnorrsig_aggverify(FC("secp256k1_schnorrsig_aggverify"), F.ha_pks, F.ha_msgs, HA_N, in.p, in.n));
             // resume incremental aggregation from the stored aggregate (n_before taken from the record length)
-            if (in.n >= 32 && in.n % 32 == 0 && n < HA_N) { Buf b(32 * (HA_N + 1)); memcpy(b.p(), in.p, in.n); size_t l = 32 * (HA_N + 1); U01(secp256k1_schnorrsig_inc_aggregate(ctx, b.p(), &l, F.ha_pks, F.ha_msgs, F.ha_sigs + 64 * n, n, HA_N - n)); }
+            if (in.n >= 32 && in.n % 32 == 0 && n < HA_N) { Buf b(32 * (HA_N + 1)); memcpy(b.p(), in.p, in.n); size_t l = 32 * (HA_N + 1); U01(secp256k1_schnorrsig_inc_aggregate(FC("secp256k1_schnorrsig_inc_aggregate"), b.p(), &l, F.ha_pks, F.ha_msgs, F.ha_sigs + 64 * n, n, HA_N - n)); }
             break;
         }
         case A_COMMIT: {
             if (in.n != 33) return;
             secp256k1_pedersen_commitment c, c0, c2;
-            int ok = U01(secp256k1_pedersen_commitment_parse(ctx, &c, in.p)); expect_intact(u, ok, "secp256k1_pedersen_commitment_parse");
+            int ok = U01(secp256k1_pedersen_commitment_parse(FC("secp256k1_pedersen_commitment_parse"), &c, in.p)); expect_intact(u, ok, "secp256k1_pedersen_commitment_parse");
             if (!ok) return;
-            Buf o(33); U01(secp256k1_pedersen_commitment_serialize(ctx, o.p(), &c));
-            if (!U01(secp256k1_pedersen_commitment_parse(ctx, &c0, F.commit33[0])) || !U01(secp256k1_pedersen_commitment_parse(ctx, &c2, F.commit33[2]))) return;
+            Buf o(33); U01(secp256k1_pedersen_commitment_serialize(FC("secp256k1_pedersen_commitment_serialize"), o.p(), &c));
+            if (!U01(secp256k1_pedersen_commitment_parse(FC("secp256k1_pedersen_commitment_parse"), &c0, F.commit33[0])) || !U01(secp256k1_pedersen_commitment_parse(FC("secp256k1_pedersen_commitment_parse"), &c2, F.commit33[2]))) return;
             const secp256k1_pedersen_commitment *pos[1] = {&c0}, *ng[2] = {&c, &c2};
-            int t = U01(secp256k1_pedersen_verify_tally(ctx, pos, 1, ng, 2)); expect_intact(u, t, "secp256k1_pedersen_verify_tally");
-            uint64_t mn, mx; int v = U01(secp256k1_rangeproof_verify(ctx, &mn, &mx, &c, F.rp_proof, F.rp_len, F.rp_extra, sizeof F.rp_extra, &F.gen)); expect_intact(u, v, "secp256k1_rangeproof_verify");
+            int t = U01(secp256k1_pedersen_verify_tally(FC("secp256k1_pedersen_verify_tally"), pos, 1, ng, 2)); expect_intact(u, t, "secp256k1_pedersen_verify_tally");
+            uint64_t mn, mx; int v = U01(secp256k1_rangeproof_verify(FC("secp256k1_rangeproof_verify"), &mn, &mx, &c, F.rp_proof, F.rp_len, F.rp_extra, sizeof F.rp_extra, &F.gen)); expect_intact(u, v, "secp256k1_rangeproof_verify");
             break;
         }
         case A_GENERATOR: {
             if (in.n != 33) return;
             secp256k1_generator g;
-            int ok = U01(secp256k1_generator_parse(ctx, &g, in.p)); expect_intact(u, ok, "secp256k1_generator_parse");
+            int ok = U01(secp256k1_generator_parse(FC("secp256k1_generator_parse"), &g, in.p)); expect_intact(u, ok, "secp256k1_generator_parse");
             if (!ok) return;
-            Buf o(33); U01(secp256k1_generator_serialize(ctx, o.p(), &g));
-            secp256k1_pedersen_commitment c; U01(secp256k1_pedersen_commit(ctx, &c, F.blind[1], F.value[1], &g));
-            uint64_t mn, mx; int v = U01(secp256k1_rangeproof_verify(ctx, &mn, &mx, &F.commit[1], F.rp_proof, F.rp_len, F.rp_extra, sizeof F.rp_extra, &g)); expect_intact(u, v, "secp256k1_rangeproof_verify");
-            { secp256k1_surjectionproof pr; if (U01(secp256k1_surjectionproof_parse(ctx, &pr, F.sj_proof, F.sj_len))) U01(secp256k1_surjectionproof_verify(ctx, &pr, F.sj_eph, SJ_INPUTS, &g)); }
+            Buf o(33); U01(secp256k1_generator_serialize(FC("secp256k1_generator_serialize"), o.p(), &g));
+            secp256k1_pedersen_commitment c; U01(secp256k1_pedersen_commit(FC("secp256k1_pedersen_commit"), &c, F.blind[1], F.value[1], &g));
+            uint64_t mn, mx; int v = U01(secp256k1_rangeproof_verify(FC("secp256k1_rangeproof_verify"), &mn, &mx, &F.commit[1], F.rp_proof, F.rp_len, F.rp_extra, sizeof F.rp_extra, &g)); expect_intact(u, v, "secp256k1_rangeproof_verify");
+            { secp256k1_surjectionproof pr; if (U01(secp256k1_surjectionproof_parse(FC("secp256k1_surjectionproof_parse"), &pr, F.sj_proof, F.sj_len))) U01(secp256k1_surjectionproof_verify(FC("secp256k1_surjectionproof_verify"), &pr, F.sj_eph, SJ_INPUTS, &g)); }
             break;
         }
         case A_RANGEPROOF: {
             int ex, mant; uint64_t mn = 0, mx = 0;
-            int inf = U01(secp256k1_rangeproof_info(ctx, &ex, &mant, &mn, &mx, in.p, in.n)); expect_intact(u, inf, "secp256k1_rangeproof_info");
-            int v = U01(secp256k1_rangeproof_verify(ctx, &mn, &mx, &F.commit[1], in.p, in.n, F.rp_extra, sizeof F.rp_extra, &F.gen)); expect_intact(u, v, "secp256k1_rangeproof_verify");
+            int inf = U01(secp256k1_rangeproof_info(FC("secp256k1_rangeproof_info"), &ex, &mant, &mn, &mx, in.p, in.n)); expect_intact(u, inf, "secp256k1_rangeproof_info");
+            int v = U01(secp256k1_rangeproof_verify(FC("secp256k1_rangeproof_verify"), &mn, &mx, &F.commit[1], in.p, in.n, F.rp_extra, sizeof F.rp_extra, &F.gen)); expect_intact(u, v, "secp256k1_rangeproof_verify");
             Buf bo(32), mo(4096); uint64_t vo; size_t ol = 4096;
-            int rw = U01(secp256k1_rangeproof_rewind(ctx, bo.p(), &vo, mo.p(), &ol, F.rp_nonce, &mn, &mx, &F.commit[1], in.p, in.n, F.rp_extra, sizeof F.rp_extra, &F.gen)); expect_intact(u, rw, "secp256k1_rangeproof_rewind");
-            { Buf small(7); size_t sl = 7; U01(secp256k1_rangeproof_rewind(ctx, bo.p(), &vo, small.p(), &sl, F.rp_nonce, &mn, &mx, &F.commit[1], in.p, in.n, F.rp_extra, sizeof F.rp_extra, &F.gen)); }
+            int rw = U01(secp256k1_rangeproof_rewind(FC("secp256k1_rangeproof_rewind"), bo.p(), &vo, mo.p(), &ol, F.rp_nonce, &mn, &mx, &F.commit[1], in.p, in.n, F.rp_extra, sizeof F.rp_extra, &F.gen)); expect_intact(u, rw, "secp256k1_rangeproof_rewind");
+            { Buf small(7); size_t sl = 7; U01(secp256k1_rangeproof_rewind(FC("secp256k1_rangeproof_rewind"), bo.p(), &vo, small.p(), &sl, F.rp_nonce, &mn, &mx, &F.commit[1], in.p, in.n, F.rp_extra, sizeof F.rp_extra, &F.gen)); }
             {   // every combination of the optional outputs the header allows, with the prover's nonce and with a wrong one
                 unsigned char wrong[32]; memcpy(wrong, F.rp_nonce, 32); wrong[31] ^= 1;
                 for (int wn = 0; wn < 2; wn++)
                     for (int mv = 0; mv < 3; mv++) {
                         Buf b2(32), m2(4096); uint64_t v2; size_t l2 = 4096;
-                        int rr = U01(secp256k1_rangeproof_rewind(ctx, mv == 1 ? NULL : b2.p(), mv == 2 ? NULL : &v2, mv == 1 ? NULL : m2.p(), mv == 0 ? &l2 : NULL,
+                        int rr = U01(secp256k1_rangeproof_rewind(FC("secp256k1_rangeproof_rewind"), mv == 1 ? NULL : b2.p(), mv == 2 ? NULL : &v2, mv == 1 ? NULL : m2.p(), mv == 0 ? &l2 : NULL,
                                                                  wn ? wrong : F.rp_nonce, &mn, &mx, &F.commit[1], in.p, in.n, F.rp_extra, sizeof F.rp_extra, &F.gen));
                         if (rr != (wn ? 0 : rw) && u.r.ok) { u.r.violate("C07", "rewind_verdict_depends_on_optional_outputs", "secp256k1_rangeproof_rewind", std::string("rewind returned ") + std::to_string(rr) + " with optional outputs variant " + std::to_string(mv) + (wn ? " and a wrong nonce" : "") + ", " + std::to_string(rw) + " with all outputs"); return; }
                     }
             }
-            U01(secp256k1_rangeproof_verify(ctx, &mn, &mx, &F.commit[2], in.p, in.n, NULL, 0, &F.genb));
+            U01(secp256k1_rangeproof_verify(FC("secp256k1_rangeproof_verify"), &mn, &mx, &F.commit[2], in.p, in.n, NULL, 0, &F.genb));
             break;
         }
         case A_SURJECTION: {
             secp256k1_surjectionproof pr;
-            int ok = U01(secp256k1_surjectionproof_parse(ctx, &pr, in.p, in.n)); expect_intact(u, ok, "secp256k1_surjectionproof_parse");
+            int ok = U01(secp256k1_surjectionproof_parse(FC("secp256k1_surjectionproof_parse"), &pr, in.p, in.n)); expect_intact(u, ok, "secp256k1_surjectionproof_parse");
             if (!ok) return;
-            (void)L(secp256k1_surjectionproof_n_total_inputs(ctx, &pr)); (void)L(secp256k1_surjectionproof_n_used_inputs(ctx, &pr));
-            size_t ss = L(secp256k1_surjectionproof_serialized_size(ctx, &pr));
-            Buf o(ss); size_t ol = ss; U01(secp256k1_surjectionproof_serialize(ctx, o.p(), &ol, &pr));
-            int v = U01(secp256k1_surjectionproof_verify(ctx, &pr, F.sj_eph, SJ_INPUTS, &F.sj_eph[SJ_INPUTS])); expect_intact(u, v, "secp256k1_surjectionproof_verify");
+            (void)L(secp256k1_surjectionproof_n_total_inputs(FC("secp256k1_surjectionproof_n_total_inputs"), &pr)); (void)L(secp256k1_surjectionproof_n_used_inputs(FC("secp256k1_surjectionproof_n_used_inputs"), &pr));
+            size_t ss = L(secp256k1_surjectionproof_serialized_size(FC("secp256k1_surjectionproof_serialized_size"), &pr));
+            Buf o(ss); size_t ol = ss; U01(secp256k1_surjectionproof_serialize(FC("secp256k1_surjectionproof_serialize"), o.p(), &ol, &pr));
+            int v = U01(secp256k1_surjectionproof_verify(FC("secp256k1_surjectionproof_verify"), &pr, F.sj_eph, SJ_INPUTS, &F.sj_eph[SJ_INPUTS])); expect_intact(u, v, "secp256k1_surjectionproof_verify");
             break;
         }
         case A_WHITELIST: {
             secp256k1_whitelist_signature ws;
-            int ok = U01(secp256k1_whitelist_signature_parse(ctx, &ws, in.p, in.n)); expect_intact(u, ok, "secp256k1_whitelist_signature_parse");
+            int ok = U01(secp256k1_whitelist_signature_parse(FC("secp256k1_whitelist_signature_parse"), &ws, in.p, in.n)); expect_intact(u, ok, "secp256k1_whitelist_signature_parse");
             if (!ok) return;
             size_t nk = L(secp256k1_whitelist_signature_n_keys(&ws));
-            Buf o(33 + 32 * nk); size_t ol = 33 + 32 * nk; U01(secp256k1_whitelist_signature_serialize(ctx, o.p(), &ol, &ws));
+            Buf o(33 + 32 * nk); size_t ol = 33 + 32 * nk; U01(secp256k1_whitelist_signature_serialize(FC("secp256k1_whitelist_signature_serialize"), o.p(), &ol, &ws));
             // the verifier uses its own key list; a signature that claims another key count must simply be rejected
-            int v = U01(secp256k1_whitelist_verify(ctx, &ws, F.wl_on, F.wl_off, WL_KEYS, &F.wl_sub)); expect_intact(u, v, "secp256k1_whitelist_verify");
+            int v = U01(secp256k1_whitelist_verify(FC("secp256k1_whitelist_verify"), &ws, F.wl_on, F.wl_off, WL_KEYS, &F.wl_sub)); expect_intact(u, v, "secp256k1_whitelist_verify");
             break;
         }
         case A_BPPP_GENS: {
@@ -267,12 +269,12 @@ void consume(Use &u, const Bytes &rec) {
             uint64_t seq0 = g_mon.seq; int64_t inj0 = g_mon.fails_injected;
             if (u.alloc_fail >= 0) { g_mon.arm_fail(u.alloc_fail); g_mon.abort_target = &jb; }
             if (setjmp(jb) == 0) {
-                secp256k1_bppp_generators *gs = L(secp256k1_bppp_generators_parse(ctx, in.p, in.n));
+                secp256k1_bppp_generators *gs = L(secp256k1_bppp_generators_parse(FC("secp256k1_bppp_generators_parse"), in.p, in.n));
                 u.r.cmp();
                 if (u.intact && !gs && u.alloc_fail < 0) u.r.violate("C07", "intact_record_rejected", "secp256k1_bppp_generators_parse", "intact generator list rejected");
                 if (gs) {
-                    Buf o(in.n ? in.n : 1); size_t ol = in.n; U01(secp256k1_bppp_generators_serialize(ctx, gs, o.p(), &ol));
-                    L(secp256k1_bppp_generators_destroy(ctx, gs));
+                    Buf o(in.n ? in.n : 1); size_t ol = in.n; U01(secp256k1_bppp_generators_serialize(FC("secp256k1_bppp_generators_serialize"), gs, o.p(), &ol));
+                    L(secp256k1_bppp_generators_destroy(FC("secp256k1_bppp_generators_destroy"), gs));
                 } else if (g_mon.fails_injected > inj0) u.r.probe("oom_handled_gracefully");
             } else aborted = 1;
             g_mon.abort_target = nullptr; g_mon.disarm_fail();
@@ -292,6 +294,7 @@ void consume(Use &u, const Bytes &rec) {
 
 }  // namespace
 
+#undef FC
 static Plan store_generate(uint64_t seed, int tier) {
     Rng g(seed);
     Plan p;
@@ -306,6 +309,7 @@ static Plan store_generate(uint64_t seed, int tier) {
         o.a = {t, f, (int64_t)g.below(1 << 20), (int64_t)g.below(1 << 20), (int64_t)g.below(A_NTYPES), t == A_BPPP_GENS && g.chance(1, 3) ? (int64_t)g.below(3) : -1};
         p.ops.push_back(o);
     }
+    p.cfg["frugal"] = g.chance(1, 3);
     return p;
 }
 
@@ -318,6 +322,7 @@ static void store_execute(const Plan &p, const ExecOpts &, Result &r) {
         monitors_epilogue(r, r.expected_illegal, r.expected_error);
         return;
     }
+    if (p.c("frugal")) r.fault("reader_uses_static_context");
     for (const Op &o : p.ops) {
         if (!r.ok) break;
         if (o.k != "rec") continue;
@@ -353,7 +358,7 @@ static void store_execute(const Plan &p, const ExecOpts &, Result &r) {
         if (f != D_NONE && !intact) r.fault(std::string("disk.") + DN[f]);
         r.ev(std::string("read ") + AN[t] + " " + DN[f] + " len " + std::to_string(rec.size()) + " " + hex(rec).substr(0, 24));
         r.cover.insert(std::string("cell:") + AN[t] + ":" + DN[f]);
-        Use u{r, ctx, fa, t, intact, "", o.arg(5, -1)};
+        Use u{r, ctx, fa, t, intact, "", o.arg(5, -1), p.c("frugal") != 0};
         int64_t ill0 = g_mon.illegal_count;
         size_t live0 = g_mon.live.size();
         consume(u, rec);
